@@ -38,7 +38,7 @@ func init() {
 				}
 				return 500_000
 			}, Run: c14Options,
-				Min: map[string]int64{"decodes": 100000, "with_palette_options": 50000, "with_color_at_options": 50000, "options_written_by_the_caller": 10000, "gradient_stops_from_unwritten_registers": 50000, "gradient_stops_written_as_indirect_colours": 50000, "nonsensical_user_colors": 20000, "gradient_looking_user_colors": 5000,
+				Min: map[string]int64{"decodes": 100000, "with_palette_options": 50000, "with_color_at_options": 50000, "options_written_by_the_caller": 10000, "options_written_by_the_caller_that_move_the_viewbox": 3000, "gradient_stops_from_unwritten_registers": 50000, "gradient_stops_written_as_indirect_colours": 50000, "nonsensical_user_colors": 20000, "gradient_looking_user_colors": 5000,
 					"replacement_after_override": 5000, "paths": 100000, "flat": 50000, "suggested_palette_in_file": 30000, "non_rgba_color_models": 20000, "option_table_prefix_used_first": 10000, "replacement_equals_default_palette": 3000, "renderer_reused_after_same_palette": 100000, "same_graphic_decoded_before_with_other_options": 50000}},
 		},
 	})
@@ -139,6 +139,7 @@ func c14Options(c *run.Ctx, idx uint64) {
 		return
 	}
 	want := meta.Palette
+	wantVB := meta.ViewBox
 	var opts []decode.DecodeOption
 	var odesc []string
 	nOpts := r.Pick(0, 1, 1, 2, 2, 3, 4, 6)
@@ -185,8 +186,19 @@ func c14Options(c *run.Ctx, idx uint64) {
 			if r.Chance(1, 3) {
 				k = color.RGBA{0x02, 0x14, 0x94, 0x00}
 			}
-			opts = append(opts, decode.DecodeOption(func(m *ivg.Metadata) { m.Palette[i] = k }))
-			odesc = append(odesc, fmt.Sprintf("func(m *ivg.Metadata) { m.Palette[%d] = %#v }", i, k))
+			if r.Chance(1, 4) {
+				// such an option receives the whole Metadata: it may also place the
+				// graphic's viewBox elsewhere (what Reset delivers is the Metadata after
+				// all options)
+				vb := ivg.ViewBox{MinX: float32(r.Range(-50, 0)), MinY: float32(r.Range(-50, 0)), MaxX: float32(r.Range(1, 70)), MaxY: float32(r.Range(1, 70))}
+				opts = append(opts, decode.DecodeOption(func(m *ivg.Metadata) { m.Palette[i] = k; m.ViewBox = vb }))
+				odesc = append(odesc, fmt.Sprintf("func(m *ivg.Metadata) { m.Palette[%d] = %#v; m.ViewBox = %v }", i, k, vb))
+				wantVB = vb
+				c.Count("options_written_by_the_caller_that_move_the_viewbox", 1)
+			} else {
+				opts = append(opts, decode.DecodeOption(func(m *ivg.Metadata) { m.Palette[i] = k }))
+				odesc = append(odesc, fmt.Sprintf("func(m *ivg.Metadata) { m.Palette[%d] = %#v }", i, k))
+			}
 			want[i] = k
 			sawOverride = true
 			c.Count("options_written_by_the_caller", 1)
@@ -314,6 +326,10 @@ func c14Options(c *run.Ctx, idx uint64) {
 			sig = "reset-palette/user-colour-not-sanitised"
 		}
 		c.Violate(sig, desc(map[string]interface{}{"index": i, "got": fmt.Sprint(got[i]), "want": fmt.Sprint(want[i])}))
+		return
+	}
+	if d.Ops[0].VB != wantVB {
+		c.Violate("reset-viewbox-is-not-the-metadata-after-the-options", desc(map[string]interface{}{"got": fmt.Sprint(d.Ops[0].VB), "want": fmt.Sprint(wantVB)}))
 		return
 	}
 	// paints: the reference machine seeded with the reference palette
